@@ -1393,11 +1393,59 @@ func (w *Walker) cond(e ast.Expr, st *State) (ts, fs []*State) {
 			fs = append(fs, r.st)
 			continue
 		}
+		if t.BLit != nil {
+			t2, f2 := split(r.st, *t.BLit)
+			ts = append(ts, t2...)
+			fs = append(fs, f2...)
+			continue
+		}
 		t2, f2 := split(r.st, Lit{mkAtom("b", t, nil), true})
 		ts = append(ts, t2...)
 		fs = append(fs, f2...)
 	}
 	return ts, fs
+}
+
+// lazyBool: e is a comparison of two simple operands (names, field selections, constants, nil) of boolean type: the term
+// that stands for it without deciding it, nil if e is anything else.
+func (w *Walker) lazyBool(e ast.Expr, st *State) *Term {
+	be, ok := ast.Unparen(e).(*ast.BinaryExpr)
+	if !ok {
+		return nil
+	}
+	switch be.Op {
+	case token.EQL, token.NEQ, token.LSS, token.GTR, token.LEQ, token.GEQ:
+	default:
+		return nil
+	}
+	var simple func(x ast.Expr) bool
+	simple = func(x ast.Expr) bool {
+		switch y := ast.Unparen(x).(type) {
+		case *ast.Ident, *ast.BasicLit:
+			return true
+		case *ast.SelectorExpr:
+			return simple(y.X)
+		}
+		return false
+	}
+	if !simple(be.X) || !simple(be.Y) || isBoolExpr(w.info, be.X) {
+		return nil
+	}
+	ls := w.eval(be.X, st)
+	if len(ls) != 1 || ls[0].st != st {
+		return nil
+	}
+	rs := w.eval(be.Y, st)
+	if len(rs) != 1 || rs[0].st != st {
+		return nil
+	}
+	lit, ok := cmpLit(be.Op, ls[0].t, rs[0].t, false)
+	if !ok {
+		return nil
+	}
+	t := fresh("lazybool")
+	t.BLit = &lit
+	return t
 }
 
 func split(st *State, lit Lit) (ts, fs []*State) {
@@ -1823,6 +1871,13 @@ func (w *Walker) eval(e ast.Expr, st *State) []evalRes {
 			if kv, ok := el.(*ast.KeyValueExpr); ok {
 				v = kv.Value
 			}
+			// a simple comparison as an element is kept as what it says, undecided
+			if len(cur) == 1 {
+				if lt := w.lazyBool(v, cur[0]); lt != nil {
+					elts = append(elts, lt)
+					continue
+				}
+			}
 			var next []*State
 			for _, s := range cur {
 				for _, r := range w.eval(v, s) {
@@ -1874,6 +1929,12 @@ func (w *Walker) eval(e ast.Expr, st *State) []evalRes {
 				}
 				if len(keys) == len(elts) {
 					t.Keys = keys
+				}
+			}
+			switch w.info.TypeOf(x).Underlying().(type) {
+			case *types.Slice, *types.Array:
+				if len(cur) == 1 && len(elts) == len(x.Elts) {
+					t.List = true
 				}
 			}
 			if stt, isStruct := w.info.TypeOf(x).Underlying().(*types.Struct); isStruct && len(cur) == 1 && len(elts) == len(x.Elts) && (len(names) == len(elts) || len(elts) == stt.NumFields() || len(elts) == 0) {
@@ -2076,6 +2137,14 @@ func (w *Walker) selector(x *ast.SelectorExpr, st *State) []evalRes {
 			continue
 		}
 		fv := sel.Obj().(*types.Var).Origin()
+		if b.t.ST != nil && len(b.t.Fields) == 0 && len(b.t.Args) == b.t.ST.NumFields() {
+			for i := 0; i < b.t.ST.NumFields(); i++ {
+				if b.t.ST.Field(i).Name() == x.Sel.Name {
+					out = append(out, evalRes{b.st, b.t.Args[i]})
+				}
+			}
+			continue
+		}
 		if len(b.t.Fields) > 0 && len(b.t.Fields) == len(b.t.Args) {
 			found := false
 			for i, fnm := range b.t.Fields {
